@@ -9,7 +9,7 @@
 From Coq Require Import List ZArith String Bool.
 Import ListNotations.
 Require Import Naga.Base.Bits32 Naga.Base.F32 Naga.IR.Values Naga.Msl.Syntax Naga.Msl.Ops Naga.Msl.Sem
-               Naga.Msl.Catalogue Naga.Msl.CatalogueProofs Naga.Msl.FloatConv Naga.Msl.FloatConvProofs Naga.Msl.CatalogueTie Naga.Gen.MslOpTable.
+               Naga.Msl.Catalogue Naga.Msl.CatalogueProofs Naga.Msl.FloatConv Naga.Msl.FloatConvProofs Naga.Msl.VectorProofs Naga.Msl.CatalogueTie Naga.Gen.MslOpTable.
 Open Scope string_scope.
 Open Scope Z_scope.
 
@@ -166,6 +166,54 @@ Proof.
         (conj msl_conv_f32_i32_correct_below_2p31 msl_conv_f32_u32_correct_below_2p32))).
 Qed.
 Print Assumptions c04_float_to_int_helpers.
+
+(* vector shapes of the arithmetic that C++ leaves undefined on overflow / division by zero: component-wise WGSL value,
+   never undefined behaviour (the remaining 243 vector lemmas are in Msl/VectorProofs.v) *)
+Theorem c04_vector_hardened_operators :
+  (forall a1 a2 b1 b2, run2 [] (t_wrap_i32 BAdd 2) (VVec [VI32 a1; VI32 a2]) (VVec [VI32 b1; VI32 b2]) = Done (VVec [VI32 (add32 a1 b1); VI32 (add32 a2 b2)])) /\
+  (forall a1 a2 b1 b2, run2 [] (t_bin BAdd) (VVec [VU32 a1; VU32 a2]) (VVec [VU32 b1; VU32 b2]) = Done (VVec [VU32 (add32 a1 b1); VU32 (add32 a2 b2)])) /\
+  (forall a1 a2 b1 b2, run2 [] (t_wrap_i32 BSub 2) (VVec [VI32 a1; VI32 a2]) (VVec [VI32 b1; VI32 b2]) = Done (VVec [VI32 (sub32 a1 b1); VI32 (sub32 a2 b2)])) /\
+  (forall a1 a2 b1 b2, run2 [] (t_bin BSub) (VVec [VU32 a1; VU32 a2]) (VVec [VU32 b1; VU32 b2]) = Done (VVec [VU32 (sub32 a1 b1); VU32 (sub32 a2 b2)])) /\
+  (forall a1 a2 b1 b2, run2 [] (t_wrap_i32 BMul 2) (VVec [VI32 a1; VI32 a2]) (VVec [VI32 b1; VI32 b2]) = Done (VVec [VI32 (mul32 a1 b1); VI32 (mul32 a2 b2)])) /\
+  (forall a1 a2 b1 b2, run2 [] (t_bin BMul) (VVec [VU32 a1; VU32 a2]) (VVec [VU32 b1; VU32 b2]) = Done (VVec [VU32 (mul32 a1 b1); VU32 (mul32 a2 b2)])) /\
+  (forall a1 a2, run1 [] (t_call1 "metal::abs") (VVec [VU32 a1; VU32 a2]) = Done (VVec [VU32 (a1); VU32 (a2)])) /\
+  (forall a1 a2 a3 b1 b2 b3, run2 [] (t_wrap_i32 BAdd 3) (VVec [VI32 a1; VI32 a2; VI32 a3]) (VVec [VI32 b1; VI32 b2; VI32 b3]) = Done (VVec [VI32 (add32 a1 b1); VI32 (add32 a2 b2); VI32 (add32 a3 b3)])) /\
+  (forall a1 a2 a3 b1 b2 b3, run2 [] (t_bin BAdd) (VVec [VU32 a1; VU32 a2; VU32 a3]) (VVec [VU32 b1; VU32 b2; VU32 b3]) = Done (VVec [VU32 (add32 a1 b1); VU32 (add32 a2 b2); VU32 (add32 a3 b3)])) /\
+  (forall a1 a2 a3 b1 b2 b3, run2 [] (t_wrap_i32 BSub 3) (VVec [VI32 a1; VI32 a2; VI32 a3]) (VVec [VI32 b1; VI32 b2; VI32 b3]) = Done (VVec [VI32 (sub32 a1 b1); VI32 (sub32 a2 b2); VI32 (sub32 a3 b3)])) /\
+  (forall a1 a2 a3 b1 b2 b3, run2 [] (t_bin BSub) (VVec [VU32 a1; VU32 a2; VU32 a3]) (VVec [VU32 b1; VU32 b2; VU32 b3]) = Done (VVec [VU32 (sub32 a1 b1); VU32 (sub32 a2 b2); VU32 (sub32 a3 b3)])) /\
+  (forall a1 a2 a3 b1 b2 b3, run2 [] (t_wrap_i32 BMul 3) (VVec [VI32 a1; VI32 a2; VI32 a3]) (VVec [VI32 b1; VI32 b2; VI32 b3]) = Done (VVec [VI32 (mul32 a1 b1); VI32 (mul32 a2 b2); VI32 (mul32 a3 b3)])) /\
+  (forall a1 a2 a3 b1 b2 b3, run2 [] (t_bin BMul) (VVec [VU32 a1; VU32 a2; VU32 a3]) (VVec [VU32 b1; VU32 b2; VU32 b3]) = Done (VVec [VU32 (mul32 a1 b1); VU32 (mul32 a2 b2); VU32 (mul32 a3 b3)])) /\
+  (forall a1 a2 a3, run1 [] (t_call1 "metal::abs") (VVec [VU32 a1; VU32 a2; VU32 a3]) = Done (VVec [VU32 (a1); VU32 (a2); VU32 (a3)])) /\
+  (forall a1 a2 a3 a4 b1 b2 b3 b4, run2 [] (t_wrap_i32 BAdd 4) (VVec [VI32 a1; VI32 a2; VI32 a3; VI32 a4]) (VVec [VI32 b1; VI32 b2; VI32 b3; VI32 b4]) = Done (VVec [VI32 (add32 a1 b1); VI32 (add32 a2 b2); VI32 (add32 a3 b3); VI32 (add32 a4 b4)])) /\
+  (forall a1 a2 a3 a4 b1 b2 b3 b4, run2 [] (t_bin BAdd) (VVec [VU32 a1; VU32 a2; VU32 a3; VU32 a4]) (VVec [VU32 b1; VU32 b2; VU32 b3; VU32 b4]) = Done (VVec [VU32 (add32 a1 b1); VU32 (add32 a2 b2); VU32 (add32 a3 b3); VU32 (add32 a4 b4)])) /\
+  (forall a1 a2 a3 a4 b1 b2 b3 b4, run2 [] (t_wrap_i32 BSub 4) (VVec [VI32 a1; VI32 a2; VI32 a3; VI32 a4]) (VVec [VI32 b1; VI32 b2; VI32 b3; VI32 b4]) = Done (VVec [VI32 (sub32 a1 b1); VI32 (sub32 a2 b2); VI32 (sub32 a3 b3); VI32 (sub32 a4 b4)])) /\
+  (forall a1 a2 a3 a4 b1 b2 b3 b4, run2 [] (t_bin BSub) (VVec [VU32 a1; VU32 a2; VU32 a3; VU32 a4]) (VVec [VU32 b1; VU32 b2; VU32 b3; VU32 b4]) = Done (VVec [VU32 (sub32 a1 b1); VU32 (sub32 a2 b2); VU32 (sub32 a3 b3); VU32 (sub32 a4 b4)])) /\
+  (forall a1 a2 a3 a4 b1 b2 b3 b4, run2 [] (t_wrap_i32 BMul 4) (VVec [VI32 a1; VI32 a2; VI32 a3; VI32 a4]) (VVec [VI32 b1; VI32 b2; VI32 b3; VI32 b4]) = Done (VVec [VI32 (mul32 a1 b1); VI32 (mul32 a2 b2); VI32 (mul32 a3 b3); VI32 (mul32 a4 b4)])) /\
+  (forall a1 a2 a3 a4 b1 b2 b3 b4, run2 [] (t_bin BMul) (VVec [VU32 a1; VU32 a2; VU32 a3; VU32 a4]) (VVec [VU32 b1; VU32 b2; VU32 b3; VU32 b4]) = Done (VVec [VU32 (mul32 a1 b1); VU32 (mul32 a2 b2); VU32 (mul32 a3 b3); VU32 (mul32 a4 b4)])) /\
+  (forall a1 a2 a3 a4, run1 [] (t_call1 "metal::abs") (VVec [VU32 a1; VU32 a2; VU32 a3; VU32 a4]) = Done (VVec [VU32 (a1); VU32 (a2); VU32 (a3); VU32 (a4)])) /\
+  (forall a1 a2 b1 b2, in32 a1 -> in32 a2 -> in32 b1 -> in32 b2 -> run2 [h_div_i32 2] (t_call2 "naga_div") (VVec [VI32 a1; VI32 a2]) (VVec [VI32 b1; VI32 b2]) = Done (VVec [VI32 (div_i32 a1 b1); VI32 (div_i32 a2 b2)])) /\
+  (forall a1 a2 b1 b2, in32 a1 -> in32 a2 -> in32 b1 -> in32 b2 -> run2 [h_mod_i32 2] (t_call2 "naga_mod") (VVec [VI32 a1; VI32 a2]) (VVec [VI32 b1; VI32 b2]) = Done (VVec [VI32 (rem_i32 a1 b1); VI32 (rem_i32 a2 b2)])) /\
+  (forall a1 a2 b1 b2, in32 a1 -> in32 a2 -> in32 b1 -> in32 b2 -> run2 [h_div_u32 2] (t_call2 "naga_div") (VVec [VU32 a1; VU32 a2]) (VVec [VU32 b1; VU32 b2]) = Done (VVec [VU32 (div_u32 a1 b1); VU32 (div_u32 a2 b2)])) /\
+  (forall a1 a2 b1 b2, in32 a1 -> in32 a2 -> in32 b1 -> in32 b2 -> run2 [h_mod_u32 2] (t_call2 "naga_mod") (VVec [VU32 a1; VU32 a2]) (VVec [VU32 b1; VU32 b2]) = Done (VVec [VU32 (rem_u32 a1 b1); VU32 (rem_u32 a2 b2)])) /\
+  (forall a1 a2, in32 a1 -> in32 a2 -> run1 [h_neg_i32 2] (t_call1 "naga_neg") (VVec [VI32 a1; VI32 a2]) = Done (VVec [VI32 (neg32 a1); VI32 (neg32 a2)])) /\
+  (forall a1 a2, in32 a1 -> in32 a2 -> run1 [h_abs_i32 2] (t_call1 "naga_abs") (VVec [VI32 a1; VI32 a2]) = Done (VVec [VI32 (abs_i32 a1); VI32 (abs_i32 a2)])) /\
+  (forall a1 a2, in32 a1 -> in32 a2 -> run1 [] (t_sign_i32 2) (VVec [VI32 a1; VI32 a2]) = Done (VVec [VI32 (sign_i32 a1); VI32 (sign_i32 a2)])) /\
+  (forall a1 a2 a3 b1 b2 b3, in32 a1 -> in32 a2 -> in32 a3 -> in32 b1 -> in32 b2 -> in32 b3 -> run2 [h_div_i32 3] (t_call2 "naga_div") (VVec [VI32 a1; VI32 a2; VI32 a3]) (VVec [VI32 b1; VI32 b2; VI32 b3]) = Done (VVec [VI32 (div_i32 a1 b1); VI32 (div_i32 a2 b2); VI32 (div_i32 a3 b3)])) /\
+  (forall a1 a2 a3 b1 b2 b3, in32 a1 -> in32 a2 -> in32 a3 -> in32 b1 -> in32 b2 -> in32 b3 -> run2 [h_mod_i32 3] (t_call2 "naga_mod") (VVec [VI32 a1; VI32 a2; VI32 a3]) (VVec [VI32 b1; VI32 b2; VI32 b3]) = Done (VVec [VI32 (rem_i32 a1 b1); VI32 (rem_i32 a2 b2); VI32 (rem_i32 a3 b3)])) /\
+  (forall a1 a2 a3 b1 b2 b3, in32 a1 -> in32 a2 -> in32 a3 -> in32 b1 -> in32 b2 -> in32 b3 -> run2 [h_div_u32 3] (t_call2 "naga_div") (VVec [VU32 a1; VU32 a2; VU32 a3]) (VVec [VU32 b1; VU32 b2; VU32 b3]) = Done (VVec [VU32 (div_u32 a1 b1); VU32 (div_u32 a2 b2); VU32 (div_u32 a3 b3)])) /\
+  (forall a1 a2 a3 b1 b2 b3, in32 a1 -> in32 a2 -> in32 a3 -> in32 b1 -> in32 b2 -> in32 b3 -> run2 [h_mod_u32 3] (t_call2 "naga_mod") (VVec [VU32 a1; VU32 a2; VU32 a3]) (VVec [VU32 b1; VU32 b2; VU32 b3]) = Done (VVec [VU32 (rem_u32 a1 b1); VU32 (rem_u32 a2 b2); VU32 (rem_u32 a3 b3)])) /\
+  (forall a1 a2 a3, in32 a1 -> in32 a2 -> in32 a3 -> run1 [h_neg_i32 3] (t_call1 "naga_neg") (VVec [VI32 a1; VI32 a2; VI32 a3]) = Done (VVec [VI32 (neg32 a1); VI32 (neg32 a2); VI32 (neg32 a3)])) /\
+  (forall a1 a2 a3, in32 a1 -> in32 a2 -> in32 a3 -> run1 [h_abs_i32 3] (t_call1 "naga_abs") (VVec [VI32 a1; VI32 a2; VI32 a3]) = Done (VVec [VI32 (abs_i32 a1); VI32 (abs_i32 a2); VI32 (abs_i32 a3)])) /\
+  (forall a1 a2 a3, in32 a1 -> in32 a2 -> in32 a3 -> run1 [] (t_sign_i32 3) (VVec [VI32 a1; VI32 a2; VI32 a3]) = Done (VVec [VI32 (sign_i32 a1); VI32 (sign_i32 a2); VI32 (sign_i32 a3)])) /\
+  (forall a1 a2 a3 a4 b1 b2 b3 b4, in32 a1 -> in32 a2 -> in32 a3 -> in32 a4 -> in32 b1 -> in32 b2 -> in32 b3 -> in32 b4 -> run2 [h_div_i32 4] (t_call2 "naga_div") (VVec [VI32 a1; VI32 a2; VI32 a3; VI32 a4]) (VVec [VI32 b1; VI32 b2; VI32 b3; VI32 b4]) = Done (VVec [VI32 (div_i32 a1 b1); VI32 (div_i32 a2 b2); VI32 (div_i32 a3 b3); VI32 (div_i32 a4 b4)])) /\
+  (forall a1 a2 a3 a4 b1 b2 b3 b4, in32 a1 -> in32 a2 -> in32 a3 -> in32 a4 -> in32 b1 -> in32 b2 -> in32 b3 -> in32 b4 -> run2 [h_mod_i32 4] (t_call2 "naga_mod") (VVec [VI32 a1; VI32 a2; VI32 a3; VI32 a4]) (VVec [VI32 b1; VI32 b2; VI32 b3; VI32 b4]) = Done (VVec [VI32 (rem_i32 a1 b1); VI32 (rem_i32 a2 b2); VI32 (rem_i32 a3 b3); VI32 (rem_i32 a4 b4)])) /\
+  (forall a1 a2 a3 a4 b1 b2 b3 b4, in32 a1 -> in32 a2 -> in32 a3 -> in32 a4 -> in32 b1 -> in32 b2 -> in32 b3 -> in32 b4 -> run2 [h_div_u32 4] (t_call2 "naga_div") (VVec [VU32 a1; VU32 a2; VU32 a3; VU32 a4]) (VVec [VU32 b1; VU32 b2; VU32 b3; VU32 b4]) = Done (VVec [VU32 (div_u32 a1 b1); VU32 (div_u32 a2 b2); VU32 (div_u32 a3 b3); VU32 (div_u32 a4 b4)])) /\
+  (forall a1 a2 a3 a4 b1 b2 b3 b4, in32 a1 -> in32 a2 -> in32 a3 -> in32 a4 -> in32 b1 -> in32 b2 -> in32 b3 -> in32 b4 -> run2 [h_mod_u32 4] (t_call2 "naga_mod") (VVec [VU32 a1; VU32 a2; VU32 a3; VU32 a4]) (VVec [VU32 b1; VU32 b2; VU32 b3; VU32 b4]) = Done (VVec [VU32 (rem_u32 a1 b1); VU32 (rem_u32 a2 b2); VU32 (rem_u32 a3 b3); VU32 (rem_u32 a4 b4)])) /\
+  (forall a1 a2 a3 a4, in32 a1 -> in32 a2 -> in32 a3 -> in32 a4 -> run1 [h_neg_i32 4] (t_call1 "naga_neg") (VVec [VI32 a1; VI32 a2; VI32 a3; VI32 a4]) = Done (VVec [VI32 (neg32 a1); VI32 (neg32 a2); VI32 (neg32 a3); VI32 (neg32 a4)])) /\
+  (forall a1 a2 a3 a4, in32 a1 -> in32 a2 -> in32 a3 -> in32 a4 -> run1 [h_abs_i32 4] (t_call1 "naga_abs") (VVec [VI32 a1; VI32 a2; VI32 a3; VI32 a4]) = Done (VVec [VI32 (abs_i32 a1); VI32 (abs_i32 a2); VI32 (abs_i32 a3); VI32 (abs_i32 a4)])) /\
+  (forall a1 a2 a3 a4, in32 a1 -> in32 a2 -> in32 a3 -> in32 a4 -> run1 [] (t_sign_i32 4) (VVec [VI32 a1; VI32 a2; VI32 a3; VI32 a4]) = Done (VVec [VI32 (sign_i32 a1); VI32 (sign_i32 a2); VI32 (sign_i32 a3); VI32 (sign_i32 a4)])).
+Proof. exact (conj msl_add_i32_v2 (conj msl_add_u32_v2 (conj msl_sub_i32_v2 (conj msl_sub_u32_v2 (conj msl_mul_i32_v2 (conj msl_mul_u32_v2 (conj msl_abs_u32_v2 (conj msl_add_i32_v3 (conj msl_add_u32_v3 (conj msl_sub_i32_v3 (conj msl_sub_u32_v3 (conj msl_mul_i32_v3 (conj msl_mul_u32_v3 (conj msl_abs_u32_v3 (conj msl_add_i32_v4 (conj msl_add_u32_v4 (conj msl_sub_i32_v4 (conj msl_sub_u32_v4 (conj msl_mul_i32_v4 (conj msl_mul_u32_v4 (conj msl_abs_u32_v4 (conj msl_div_i32_v2 (conj msl_mod_i32_v2 (conj msl_div_u32_v2 (conj msl_mod_u32_v2 (conj msl_neg_i32_v2 (conj msl_abs_i32_v2 (conj msl_sign_i32_v2 (conj msl_div_i32_v3 (conj msl_mod_i32_v3 (conj msl_div_u32_v3 (conj msl_mod_u32_v3 (conj msl_neg_i32_v3 (conj msl_abs_i32_v3 (conj msl_sign_i32_v3 (conj msl_div_i32_v4 (conj msl_mod_i32_v4 (conj msl_div_u32_v4 (conj msl_mod_u32_v4 (conj msl_neg_i32_v4 (conj msl_abs_i32_v4 msl_sign_i32_v4))))))))))))))))))))))))))))))))))))))))). Qed.
+Print Assumptions c04_vector_hardened_operators.
 
 (* non-vacuity: concrete instances at the boundaries; the un-wrapped forms really are undefined in the strict semantics *)
 Example c04_example_add_wraps :
